@@ -548,6 +548,49 @@ def scaling_lemmas():
 
 
 # ---------------------------------------------------------------- C17: compiled bivariate lognormal density
+def verify_biv_ind_gamma():
+    """DFE/PDFs.c:biv_ind_gamma: output[i*m+j] = g(x_i; a1, b1) * g(y_j; a2, b2),   g(x; a, b) = x^(a-1) exp(-x/b) / (b^a Gamma(a)),
+       (a1, a2, b1, b2) = (p0, p0, p1, p1) for 2 or 3 parameters, (p0, p1, p2, p3) for 4 or 5: each marginal normalised with ITS OWN shape and scale.
+       pow, exp and gamma_func (the file's Lanczos evaluation of the gamma function; its accuracy is a bounded matter) are uninterpreted."""
+    rel = 'dadi/DFE/PDFs.c'
+    oid = 'C17/PDFs.c:biv_ind_gamma'
+    fn = rel + '::biv_ind_gamma'
+    try:
+        # gamma_func (Lanczos series in the same file) by contract: an uninterpreted function of its argument
+        ex = CExec([rel], contracts={'gamma_func': lambda ex_, st_, args: CS.uf('gamma_func')(toreal(args[0]))})
+        fd = ex.funcs['biv_ind_gamma'][1]
+        st0, lens = init_state(fd, shapes={'output': ['n', 'm']})
+        n, m, Np = st0.env['n'], st0.env['m'], st0.env['Nparams']
+        hyps = [n >= 1, m >= 1, lens['xx'] >= n, lens['yy'] >= m, lens['params'] >= Np, z3.Or(Np == 2, Np == 3, Np == 4, Np == 5)]
+        st = st0.fork()
+        st.pc = list(hyps)
+        outs = ex.exec_block(func_body(fd)['inner'], [st])
+        res = []
+        if not outs or len(outs) > 8:
+            return [R(oid, 'proof', 'undecided', detail='%d paths' % len(outs), func=fn)]
+        X, Y, P = CS.rd(st0, st0.env['xx']), CS.rd(st0, st0.env['yy']), CS.rd(st0, st0.env['params'])
+        i, j = z3.Ints('i!sk j!sk')
+        POW, EXP, GAM = CS.uf('pow', 2), CS.uf('exp'), CS.uf('gamma_func')
+        g = lambda x, a, b: POW(x, a - 1) * EXP(-x / b) / (POW(b, a) * GAM(a))
+        for pi, s in enumerate(outs):
+            out = s.arrs[st0.env['output'].aid]
+            for Nv, (a1, a2, b1, b2) in ((2, (P(0), P(0), P(1), P(1))), (3, (P(0), P(0), P(1), P(1))), (4, (P(0), P(1), P(2), P(3))), (5, (P(0), P(1), P(2), P(3)))):
+                h = hyps + list(s.pc) + [Np == Nv, i >= 0, i < n, j >= 0, j < m]
+                from vf import smt as _smt
+                if _smt.sat(h, timeout_ms=3000) is False:
+                    continue            # this path does not occur with that many parameters
+                got = _resolve(out.fn((i, j)), h)
+                res.append(prove_eq('%s/post.value.%dparams%s' % (oid, Nv, '' if len(outs) == 1 else '.path%d' % pi),
+                                    h + [b1 != 0, b2 != 0, POW(b1, a1) * GAM(a1) != 0, POW(b2, a2) * GAM(a2) != 0], got, g(X(i), a1, b1) * g(Y(j), a2, b2),
+                                    func=fn, timeout_ms=30000, finding_key='C17/PDFs.c/biv_ind_gamma'))
+            h = hyps + list(s.pc) + [z3.Or(i < 0, i >= n, j < 0, j >= m)]
+            res.append(prove('%s/frame%s' % (oid, '' if len(outs) == 1 else '.path%d' % pi), h, out.fn((i, j)) == st0.arrs[st0.env['output'].aid].fn((i, j)), func=fn, timeout_ms=20000))
+        res += bounds_obligs(oid, fn, ex, hyps)
+        return res
+    except CUnsupported as e:
+        return [R(oid, 'proof', 'undecided', detail='outside the C subset: %s' % e, func=fn)]
+
+
 def verify_biv_lognormal():
     """DFE/PDFs.c:biv_lognormal: output[i*m+j] = exp(-q/2) / (2 pi s1 s2 sqrt(1-rho^2) x_i y_j),
        q = (dx^2 - 2 rho dx dy + dy^2)/(1-rho^2), dx = (log x_i - mu1)/s1, dy = (log y_j - mu2)/s2,
